@@ -264,9 +264,13 @@ SEPARABLE = [("4326", "3857"), ("3857", "4326"), ("4326", "6933"), ("6933", "432
 REGIONAL = [("4283", "3857"), ("3857", "4283"), ("4283", "6933"), ("6933", "4283"), ("4283", "4326"), ("4326", "4283"), ("4283", "sinu")]
 
 
+# curved pairs for coarse "thumbnail" destinations: few destination pixels, each tens of km wide
+THUMB = [("4326", "3035"), ("3035", "4326"), ("4326", "3577"), ("3577", "4326"), ("3857", "3035"), ("3035", "32633"), ("4283", "3577"), ("4326", "32755"), ("sinu", "4326")]
+
+
 @st.composite
-def s_diff(draw, wide=False, regional=False):
-    a, b = draw(st.sampled_from(REGIONAL if regional else SEPARABLE if wide else PAIRS))
+def s_diff(draw, wide=False, regional=False, thumb=False):
+    a, b = draw(st.sampled_from(THUMB if thumb else REGIONAL if regional else SEPARABLE if wide else PAIRS))
     A0, B0 = CRS_POOL[a][1], CRS_POOL[b][1]
     lo = (max(A0[0], B0[0]) + 1, max(A0[1], B0[1]) + 1, min(A0[2], B0[2]) - 1, min(A0[3], B0[3]) - 1)
     if regional:
@@ -284,6 +288,13 @@ def s_diff(draw, wide=False, regional=False):
     Hs, Ws = draw(st.integers(2, 48)), draw(st.integers(2, 48))
     Hd, Wd = draw(st.integers(2, 48)), draw(st.integers(2, 48))
     zoom = draw(st.sampled_from([1.0, 1.0, 2.0, 0.5, 3.3]))
+    if thumb:
+        # the destination is a thumbnail (4..19 px a side) 600-2500 km across of a source with 5-20 km pixels: the sag
+        # of a destination side is several SOURCE pixels, and the boundary sampling has only a few pixels to work with
+        res_m = draw(st.sampled_from([10000.0, 10000.0, 20000.0]))
+        Hs, Ws = draw(st.integers(80, 400)), draw(st.integers(80, 400))
+        Hd, Wd = draw(st.integers(4, 19)), draw(st.integers(4, 19))
+        zoom = draw(st.sampled_from([1000e3, 1500e3, 2000e3])) / (max(Hd, Wd) * res_m)
     off = [draw(st.floats(-1.2, 1.2)), draw(st.floats(-1.2, 1.2))]  # dst centre offset in units of source half-extent
     if draw(st.integers(0, 5)) == 0:
         off[0] += draw(st.sampled_from([-4.0, 4.0]))
@@ -418,4 +429,5 @@ def build(chk: Check) -> None:
     chk.sub("same_crs", o_same, cov={"quick": 1500, "thorough": 100000}, strategy=s_same(), n={"quick": 5000, "thorough": 300000})
     chk.sub("diff_crs", o_diff, strategy=s_diff(), n={"quick": 700, "thorough": 40000}, shrink=False)
     chk.sub("diff_crs_regional", o_diff, strategy=s_diff(regional=True), n={"quick": 250, "thorough": 12000}, shrink=False)
+    chk.sub("diff_crs_thumbnail", o_diff, strategy=s_diff(thumb=True), n={"quick": 500, "thorough": 20000}, shrink=False)
     chk.sub("diff_crs_wide", o_diff, strategy=s_diff(wide=True), n={"quick": 300, "thorough": 15000}, shrink=False)
